@@ -27,6 +27,10 @@ pub enum RxVerdict {
         src: Option<usize>,
         /// Nothing was buffered behind it.
         last: bool,
+        /// False if the frame was cut out of the remainder of a transmission whose beginning
+        /// the closure had dropped as undecodable (a re-synchronisation inside a damaged
+        /// telegram: these bytes were never sent as a telegram of their own).
+        aligned: bool,
     },
     /// The closure dropped the whole buffer and R1 rejects it.
     Discarded { bytes: usize },
@@ -50,6 +54,9 @@ pub struct HarnessPhy {
     dup_pass: bool,
     pub rx: Vec<u8>,
     rx_src: Vec<u32>,
+    /// Per buffered byte: remainder of a transmission whose beginning was dropped as undecodable.
+    rx_taint: Vec<bool>,
+    taint_tx: Option<u32>,
     pub tx_end: u64,
     /// Global time of the current poll in ticks; set by the world before every poll.
     pub now_ticks: u64,
@@ -93,6 +100,8 @@ impl HarnessPhy {
             dup_pass: false,
             rx: Vec::new(),
             rx_src: Vec::new(),
+            rx_taint: Vec::new(),
+            taint_tx: None,
             tx_end: 0,
             now_ticks: t,
             now_local: 0,
@@ -123,6 +132,7 @@ impl HarnessPhy {
         for b in bytes {
             self.rx.push(*b);
             self.rx_src.push(u32::MAX);
+            self.rx_taint.push(false);
         }
     }
 
@@ -158,6 +168,7 @@ impl HarnessPhy {
                     self.new_rx_bytes += 1;
                     self.rx.push(tx.seen[self.next_byte]);
                     self.rx_src.push(self.next_tx as u32);
+                    self.rx_taint.push(self.taint_tx == Some(self.next_tx as u32));
                     self.next_byte += 1;
                 } else {
                     return;
@@ -244,6 +255,7 @@ impl ProfibusPhy for HarnessPhy {
                 .push(format!("receive_data: closure drops {dropped} of {shown} bytes"));
             self.rx.clear();
             self.rx_src.clear();
+            self.rx_taint.clear();
             return r;
         }
         if dropped > 0 {
@@ -263,6 +275,7 @@ impl ProfibusPhy for HarnessPhy {
                         frame,
                         src,
                         last: n == shown,
+                        aligned: !self.rx_taint[..n].iter().any(|t| *t),
                     }
                 }
                 Dec::Bad if dropped == shown => {
@@ -273,7 +286,21 @@ impl ProfibusPhy for HarnessPhy {
                     self.stat_flushes += 1;
                     RxVerdict::Flushed { bytes: dropped }
                 }
-                other => RxVerdict::Anomaly {
+                other => {
+                    // only a part of an undecodable buffer is dropped: what follows from the
+                    // same transmission is not a telegram anybody sent
+                    if dropped < shown && !matches!(other, Dec::Ok(..)) {
+                        let s0 = self.rx_src[0];
+                        if s0 != u32::MAX {
+                            self.taint_tx = Some(s0);
+                            for i in dropped..shown {
+                                if self.rx_src[i] == s0 {
+                                    self.rx_taint[i] = true;
+                                }
+                            }
+                        }
+                    }
+                    RxVerdict::Anomaly {
                     dropped,
                     shown,
                     r1: match other {
@@ -281,11 +308,13 @@ impl ProfibusPhy for HarnessPhy {
                         Dec::NeedMore => "need-more".into(),
                         Dec::Bad => "bad".into(),
                     },
-                },
+                    }
+                }
             };
             self.rx_events.push(RxEvent { verdict });
             self.rx.drain(..dropped);
             self.rx_src.drain(..dropped);
+            self.rx_taint.drain(..dropped);
         }
         r
     }
